@@ -591,7 +591,7 @@ def check_C03(ctx):
 
 def check_C06(ctx):
     return run_message_property(ctx, dict(
-        theorems=["C06_minimal_varint", "C06_minimal_tag", "C06_minimal_length", "C06_field", "C06_strong"],
+        theorems=["C06_minimal_varint", "C06_minimal_tag", "C06_minimal_length", "C06_field", "C06_strong", "C06_ascending_order"],
         suites=lambda c: [_msg_suite(c, 6000, 60000)] + fresh_suites(c, [("msg", ["msg", c.seed + 13, _n(c, 3600, 30000), ".proto:"])]),
         prop={"msg": lambda r: r["impl"] != "PANIC" and r["flags"].get("c06") in ("ok", "na")}, tie={"msg": tie_bytes}, spec={"msg": spec_msg},
         nontrivial=nontrivial_any, shrink_flag="c06=bad",
